@@ -8,9 +8,19 @@ Local Open Scope nat_scope.
 Definition op_handles (op : cop) : list nat :=
   match op with
   | OpSetField o _ _ | OpSetElem o _ _ | OpAppend o _ | OpSort o | OpDelete o _ | OpTrunc o _
-  | OpNilPerms o | OpApplyModes o _ _ => [o]
+  | OpNilPerms o | OpApplyModes o _ _ | OpSlotNil o _ | OpSlotSwap o _ _ => [o]
   | OpAlias o o2 => [o; o2]
   end.
+
+Lemma in_flat_map_upd {A B} (f : A -> list B) l i x p :
+  In p (flat_map f (upd l i x)) -> In p (f x) \/ In p (flat_map f l).
+Proof.
+  revert i; induction l as [|y l IH]; intros [|i]; simpl; auto.
+  - rewrite !in_app_iff. tauto.
+  - rewrite !in_app_iff. intros [H|H]; [tauto|]. destruct (IH _ H); tauto.
+Qed.
+Lemma nth_error_flat_map {A B} (f : A -> list B) l i x p : nth_error l i = Some x -> In p (f x) -> In p (flat_map f l).
+Proof. intros H Hp. apply in_flat_map. exists x. split; [eapply nth_error_In; eauto|exact Hp]. Qed.
 
 Section Client.
   Variables (n0 : nat) (L0 : list nat) (h0 : heap) (K : list nat).
@@ -21,13 +31,13 @@ Section Client.
   Lemma list_of_ok h o s : FR h K -> In o K -> list_of h o = Some s -> OK h o /\ OK h (sl_arr s).
   Proof.
     intros F Ho H. split; [eapply Fr_root; eauto|]. unfold list_of in H.
-    destruct (hget h o) as [[| | |u|c]|] eqn:E; try discriminate; injection H as <-;
+    destruct (hget h o) as [[| | |u|c|pl]|] eqn:E; try discriminate; injection H as <-;
       (eapply Fr_ptr; [exact F|exact Ho|exact E|simpl; auto]).
   Qed.
 
   Lemma set_list_fr h o s : FR h K -> In o K -> OK h (sl_arr s) -> STP h (set_list h o s).
   Proof.
-    intros F Ho Os. unfold set_list. destruct (hget h o) as [[| | |u|c]|] eqn:E; try (apply stp_refl; exact F).
+    intros F Ho Os. unfold set_list. destruct (hget h o) as [[| | |u|c|pl]|] eqn:E; try (apply stp_refl; exact F).
     - apply stp_hset; [exact F|eapply Fr_root; eauto|]. simpl. intros p [<-|Hp]; [exact Os|].
       eapply Fr_ptr; [exact F|exact Ho|exact E|]. simpl. right. exact Hp.
     - apply stp_hset; [exact F|eapply Fr_root; eauto|]. simpl. intros p [<-|[<-|[]]]; [exact Os|].
@@ -36,10 +46,10 @@ Section Client.
 
   Lemma client_op_fr g h op : FR h K -> incl (op_handles op) K -> STP h (client_op g h op).
   Proof.
-    intros F I. destruct op as [o f v|o i v|o v|o|o i|o k|o o2|o|o flags args]; simpl in I;
+    intros F I. destruct op as [o f v|o i v|o v|o|o i|o k|o o2|o|o flags args|o i|o i j]; simpl in I;
       assert (Ho : In o K) by (apply I; left; reflexivity); unfold client_op.
     - (* field *)
-      destruct (hget h o) as [[| | |u|c]|] eqn:E; try (apply stp_refl; exact F);
+      destruct (hget h o) as [[| | |u|c|pl]|] eqn:E; try (apply stp_refl; exact F);
         destruct f; try (apply stp_refl; exact F);
         (split; [eapply Fr_hset_same_ptrs; [exact F|eapply Fr_root; eauto|exact E|reflexivity]|rewrite hset_length; lia]).
     - (* element *)
@@ -72,25 +82,38 @@ Section Client.
       apply set_list_fr; [exact F|exact Ho|]. simpl. apply (list_of_ok _ _ _ F Ho El).
     - (* alias *)
       assert (Ho2 : In o2 K) by (apply I; right; left; reflexivity).
-      destruct (hget h o) as [[| | |u|c]|] eqn:E; try (apply stp_refl; exact F);
-        destruct (hget h o2) as [[| | |u2|c2]|] eqn:E2; try (apply stp_refl; exact F).
+      destruct (hget h o) as [[| | |u|c|pl]|] eqn:E; try (apply stp_refl; exact F);
+        destruct (hget h o2) as [[| | |u2|c2|pl]|] eqn:E2; try (apply stp_refl; exact F).
       + apply stp_hset; [exact F|eapply Fr_root; eauto|]. simpl. intros p [<-|Hp].
         * eapply Fr_ptr; [exact F|exact Ho2|exact E2|simpl; auto].
         * eapply Fr_ptr; [exact F|exact Ho2|exact E2|simpl; right; exact Hp].
       + apply stp_hset; [exact F|eapply Fr_root; eauto|]. simpl. intros p [<-|[<-|[]]];
           (eapply Fr_ptr; [exact F|exact Ho2|exact E2|simpl; auto]).
     - (* Perms = nil *)
-      destruct (hget h o) as [[| | |u|c]|] eqn:E; try (apply stp_refl; exact F).
+      destruct (hget h o) as [[| | |u|c|pl]|] eqn:E; try (apply stp_refl; exact F).
       apply stp_hset; [exact F|eapply Fr_root; eauto|]. simpl. intros p [<-|[]].
       eapply Fr_ptr; [exact F|exact Ho|exact E|simpl; auto].
     - (* Modes.Apply *)
-      destruct (hget h o) as [[| | |u|c]|] eqn:E; try (apply stp_refl; exact F).
+      destruct (hget h o) as [[| | |u|c|pl]|] eqn:E; try (apply stp_refl; exact F).
       destruct (cmodes_apply h (hc_modes c) _) as [[h1 m']|] eqn:Ea; [|apply stp_refl; exact F].
       destruct (cmodes_apply_fr _ _ _ _ _ _ _ _ _ F Ea) as ((F1 & L1) & Om).
       eapply stp_trans; [split; [exact F1|exact L1]|].
       apply stp_hset; [exact F1|eapply okp_mono; [exact (Fr_root _ _ _ _ _ _ F Ho)|exact L1]|].
       simpl. intros p [<-|[<-|[]]]; [|exact Om].
       eapply okp_mono; [eapply Fr_ptr; [exact F|exact Ho|exact E|simpl; auto]|exact L1].
+    - (* listing[i] = nil *)
+      destruct (hget h o) as [[| | |u|c|pl]|] eqn:E; try (apply stp_refl; exact F).
+      destruct (Nat.ltb i (length pl)); [|apply stp_refl; exact F].
+      apply stp_hset; [exact F|eapply Fr_root; eauto|]. cbn [ptrs]. intros p Hp.
+      apply in_flat_map_upd in Hp. destruct Hp as [[]|Hp]. eapply Fr_ptr; [exact F|exact Ho|exact E|exact Hp].
+    - (* swap two slots *)
+      destruct (hget h o) as [[| | |u|c|pl]|] eqn:E; try (apply stp_refl; exact F).
+      destruct (nth_error pl i) as [x|] eqn:Ei; [|apply stp_refl; exact F].
+      destruct (nth_error pl j) as [y|] eqn:Ej; [|apply stp_refl; exact F].
+      apply stp_hset; [exact F|eapply Fr_root; eauto|]. cbn [ptrs]. intros p Hp.
+      eapply Fr_ptr; [exact F|exact Ho|exact E|]. cbn [ptrs].
+      apply in_flat_map_upd in Hp. destruct Hp as [Hp|Hp]; [exact (nth_error_flat_map _ _ _ _ _ Ei Hp)|].
+      apply in_flat_map_upd in Hp. destruct Hp as [Hp|Hp]; [exact (nth_error_flat_map _ _ _ _ _ Ej Hp)|exact Hp].
   Qed.
 End Client.
 
